@@ -684,6 +684,10 @@ class SymSW(Domain):
     def is_zero_weight(self, w):
         return w.nz is False
 
+    def wrap(self, term, positive=True):
+        "a value of the domain from a z3 term (used by summaries)"
+        return SW(term, True if positive else None)
+
 
 class SymNum(Domain):
     """Symbolic plain numbers for the Float-style APIs."""
@@ -729,6 +733,9 @@ class SymNum(Domain):
     def is_zero_weight(self, w):
         return not isinstance(w, SNum) and w == 0
 
+    def wrap(self, term, positive=True):
+        return SNum(term, 1 if positive else None)
+
 
 class ConcSW(Domain):
     """Concrete replay twin of SymSW."""
@@ -759,6 +766,9 @@ class ConcSW(Domain):
 
     def is_zero_weight(self, w):
         return w.score == 0
+
+    def wrap(self, term, positive=True):
+        return QW(term)
 
 
 class ConcNum(Domain):
@@ -791,3 +801,6 @@ class ConcNum(Domain):
 
     def is_zero_weight(self, w):
         return w == 0
+
+    def wrap(self, term, positive=True):
+        return Fraction(term)
